@@ -104,4 +104,25 @@ TEXT = {
         'note': COMMON_NOTE,
         'technique': 'TLA+ spec + TLC BFS over interleavings, Nodes/CachedLeaves dumps judged against the spec relation (G->R)',
     },
+    'C03': {
+        'text': 'Bounded exhaustive soundness check: for every abstract state within the bound the complete product of the '
+                'specification\'s input domain (claims x targets x proofs over a small alphabet, incl. wrong positions, wrong '
+                'trees, duplicated and nested targets, non-existent positions, altered/dropped/inserted proof hashes, zero '
+                'proof hashes) is given to all six verifier entry points; an acceptance is a behaviour of the '
+                'specification only if ClaimsTrue holds. Judged by the harness on the specification\'s node table and '
+                'cross-validated by TLC on the recorded acceptance trace.',
+        'design_ref': 'DESIGN.md section 5 (C03)',
+        'note': COMMON_NOTE,
+        'technique': 'TLA+ spec defines states + input domain; native product against the real verifiers; acceptances trace-validated by TLC (R->T)',
+    },
+    'C04': {
+        'text': 'Structured enumeration of malformed inputs per abstract state (domain from spec/Adversary.tla extended with '
+                '64-bit boundary tokens, length mismatches, oversized proofs, huge synthetic stumps) against all verifier '
+                'entry points and Stump.Update, each call under a watchdog with panics recovered; rejected updates must '
+                'leave the stump bit-identical. The specification\'s VerifyCall is total; a start without a return is not a '
+                'behaviour.',
+        'design_ref': 'DESIGN.md section 5 (C04), section 8',
+        'note': COMMON_NOTE + ' Termination is judged by a time budget (2 s per call on inputs of at most a few dozen elements).',
+        'technique': 'TLA+ spec defines states + input domain; native enumeration with watchdog and atomicity check',
+    },
 }
